@@ -228,6 +228,8 @@ def fRoundEvenF (x : Float32) : Float32 :=
   if res == 0 && x < 0 then -res else res
 /-- C `roundf`: ties away from zero (Metal `round`) -/
 def fRoundAwayF (x : Float32) : Float32 := x.round
+/-- `sign`: 1.0, -1.0 or the (zero / NaN) operand itself -/
+def fSignF (x : Float32) : Float32 := if x > 0 then 1 else if x < 0 then -1 else x
 def fun1 (f : Float32 → Float32) (a : W) : W := bitsOfF32 (f (f32OfBits a))
 
 /-! ## Builtins -/
@@ -264,6 +266,7 @@ def math1 (name : String) : Val → Option Val
     | "ceil" => some (.f32 (fun1 Float32.ceil a))
     | "trunc" => some (.f32 (fun1 fTruncF a))
     | "round" => some (.f32 (fun1 fRoundEvenF a))       -- WGSL: ties to even
+    | "sign" => some (.f32 (fun1 fSignF a))
     | _ => none
   | _ => none
 
